@@ -7,7 +7,9 @@ LEAN = os.path.join(VERIF, "lean")
 BUILD = os.path.join(VERIF, "build")
 GEN = os.path.join(LEAN, "ChaiVerif", "Gen")
 EXPECTED = os.path.join(VERIF, "extract", "expected")
-EVID = os.path.join(VERIF, "evidence")
+# runs against a scratch tree (tools/try_mutant.sh sets VERIF_REPO) must never overwrite the evidence / replays of the real tree
+EVID = os.path.join(VERIF, "evidence") if not os.environ.get("VERIF_REPO") else os.path.join(VERIF, "build", "scratch-evidence")
+os.makedirs(EVID, exist_ok=True)
 REPLAYS = os.path.join(VERIF, "replays")
 GUARD = "CHAISCRIPT_VERIF"
 ALLOWED_AXIOMS = {"propext", "Classical.choice", "Quot.sound"}
